@@ -4,7 +4,7 @@
    by gotrans on every run (None = the early return while currentEpoch <= 64); the model's guard and
    [min_slot], about which C18_clean_only_old is proved, are the same. *)
 From Coq Require Import ZArith NArith.
-From Verif Require Import Lib.Base Lib.GoInt Gen.Pure_Extracted Model.C18_Cache Proofs.GenTie Proofs.GenTie2.
+From Verif Require Import Lib.Base Lib.GoInt Gen.Pure_C03 Gen.Pure_C18 Model.C18_Cache Proofs.TieLib Proofs.Tie_C18.
 
 Theorem C18_tie_clean_threshold : forall (cur_epoch spe : N),
   nu64 cur_epoch ->
